@@ -7,6 +7,7 @@ A unit template (units/<name>.rs) is Verus text with directive comments:
   //@body file=<repo path> fn=<name> [nth=<k>] [block=`re`] [bnth=<k>] [end=`re`|through=brace] [keep_comments]
   //@rule n=<count> `regex` => `replacement`         unit dialect rule (single line)
   //@rule n=<count> `regex` =>>                      multi-line replacement follows ...
+  //@rule first `regex` => ..                        rewrite only the first occurrence
   ...replacement text...
   //@end
   //@endbody
@@ -432,7 +433,7 @@ def apply_rules(seg, rules, log, where):
                 log.append({"rule": name, "matches": k, "where": where})
             continue
         try:
-            seg, k = re.subn(rx, repl, seg, flags=re.M)
+            seg, k = re.subn(rx, repl, seg, count=(1 if name.startswith("unitfirst:") else 0), flags=re.M)
         except re.error as e:
             raise LostAnchor("bad rule %s in %s: %s" % (name, where, e))
         if need is not None and k != need:
@@ -561,6 +562,11 @@ def generate(tpl_path, width="u32", vacuity=False):
                     rules.append(("after:%d:%s" % (len(rules) + 1, ma.group(2) or "0"), ma.group(3), "\n".join(rep), need))
                     i += 1
                     continue
+                first = False
+                mf = re.match(r"//@rule\s+first\s+(.*)$", l2)
+                if mf:     # `//@rule first `re` => ..`: only the first occurrence is rewritten (later ones are left for later rules)
+                    first = True
+                    l2 = "//@rule n=1 " + mf.group(1)
                 m = re.match(r"//@rule\s+(?:n=(\d+|\*)\s+)?`(.*)`\s+=>(>)?\s*(?:`(.*)`)?\s*$", l2)
                 if not m:
                     if l2 == "" or (l2.startswith("//") and not l2.startswith("//@")):
@@ -580,7 +586,7 @@ def generate(tpl_path, width="u32", vacuity=False):
                     repl = re.sub(r"\\\\(\d)", r"\\\1", repl)
                 else:
                     repl = m.group(4) or ""
-                rules.append(("unit:%d" % (len(rules) + 1), m.group(2), repl, need))
+                rules.append((("unitfirst:%d" if first else "unit:%d") % (len(rules) + 1), m.group(2), repl, need))
                 i += 1
             seg, first_line, sha = extract(
                 kv["file"], kv["fn"], int(kv.get("nth", 1)), kv.get("block"),
